@@ -615,7 +615,13 @@ fn check_program(r: &mut Report, p: &Program, seed: u64, index: u64) {
     if let Some(ret) = run.returned {
         if ret != completes_on.is_some() {
             r.violation(
-                &format!("C05:guard:{}-returned-{}-but-{}", terminal, ret, if n > 0 { "completed" } else { "did-not-complete" }),
+                &format!(
+                    "C05:guard:{}-returned-{}:model-{}:completion-calls-{}",
+                    terminal,
+                    ret,
+                    if completes_on.is_some() { "completes" } else { "does-not-complete" },
+                    n.min(2)
+                ),
                 &format!("{} returned {} but the model says completed={} ({} completion calls)", terminal, ret, completes_on.is_some(), n),
                 case(),
             );
@@ -769,8 +775,16 @@ macro_rules! result_exit {
         if $exit == Exit::Panic {
             panic!("boom");
         }
+    };
+}
+
+/// The tail expression of the Result forms.
+macro_rules! result_tail {
+    ($exit:expr) => {
         if $exit == Exit::TailErr {
-            return fails("tail");
+            fails("tail")
+        } else {
+            Ok(0)
         }
     };
 }
@@ -831,7 +845,7 @@ async fn async_info_panic_lvl(rt: &Rt, inv: u32, en: bool, exit: Exit) -> u32 {
 #[emit::span(rt: *rt, "sync_plain_result {inv}", inv, en)]
 fn sync_plain_result(rt: &Rt, inv: u32, en: bool, exit: Exit) -> Result<u32, MyErr> {
     result_exit!(exit);
-    Ok(0)
+    result_tail!(exit)
 }
 
 // --- Result-aware forms ---------------------------------------------------------
@@ -839,19 +853,19 @@ fn sync_plain_result(rt: &Rt, inv: u32, en: bool, exit: Exit) -> Result<u32, MyE
 #[emit::span(rt: *rt, ok_lvl: emit::Level::Info, "sync_ok_lvl {inv}", inv, en)]
 fn sync_ok_lvl(rt: &Rt, inv: u32, en: bool, exit: Exit) -> Result<u32, MyErr> {
     result_exit!(exit);
-    Ok(0)
+    result_tail!(exit)
 }
 
 #[emit::span(rt: *rt, err_lvl: emit::Level::Warn, "sync_err_lvl {inv}", inv, en)]
 fn sync_err_lvl(rt: &Rt, inv: u32, en: bool, exit: Exit) -> Result<u32, MyErr> {
     result_exit!(exit);
-    Ok(0)
+    result_tail!(exit)
 }
 
 #[emit::span(rt: *rt, ok_lvl: "debug", err_lvl: "warn", panic_lvl: "info", "sync_all_lvls {inv}", inv, en)]
 fn sync_all_lvls(rt: &Rt, inv: u32, en: bool, exit: Exit) -> Result<u32, MyErr> {
     result_exit!(exit);
-    Ok(0)
+    result_tail!(exit)
 }
 
 #[emit::span(rt: *rt, ok_lvl: emit::Level::Debug, "async_ok_lvl {inv}", inv, en)]
@@ -859,26 +873,26 @@ async fn async_ok_lvl(rt: &Rt, inv: u32, en: bool, exit: Exit) -> Result<u32, My
     YieldNow(false).await;
     result_exit!(exit);
     YieldNow(false).await;
-    Ok(0)
+    result_tail!(exit)
 }
 
 #[emit::info_span(rt: *rt, err_lvl: emit::Level::Error, "async_info_err_lvl {inv}", inv, en)]
 async fn async_info_err_lvl(rt: &Rt, inv: u32, en: bool, exit: Exit) -> Result<u32, MyErr> {
     result_exit!(exit);
     YieldNow(false).await;
-    Ok(0)
+    result_tail!(exit)
 }
 
 #[emit::info_span(rt: *rt, ok_lvl: emit::Level::Debug, "sync_info_ok_lvl {inv}", inv, en)]
 fn sync_info_ok_lvl(rt: &Rt, inv: u32, en: bool, exit: Exit) -> Result<u32, MyErr> {
     result_exit!(exit);
-    Ok(0)
+    result_tail!(exit)
 }
 
 #[emit::span(rt: *rt, err: (|_| "mapped"), "sync_err_mapper {inv}", inv, en)]
 fn sync_err_mapper(rt: &Rt, inv: u32, en: bool, exit: Exit) -> Result<u32, MyErr> {
     result_exit!(exit);
-    Ok(0)
+    result_tail!(exit)
 }
 
 fn as_dyn(e: &MyErr) -> &(dyn Error + 'static) {
@@ -889,7 +903,7 @@ fn as_dyn(e: &MyErr) -> &(dyn Error + 'static) {
 async fn async_err_mapper(rt: &Rt, inv: u32, en: bool, exit: Exit) -> Result<u32, MyErr> {
     YieldNow(false).await;
     result_exit!(exit);
-    Ok(0)
+    result_tail!(exit)
 }
 
 // --- guard forms -----------------------------------------------------------------
